@@ -450,9 +450,10 @@ func (s *Sched) describeLocked() string {
 				if strings.HasPrefix(l, "\t") {
 					continue
 				}
-				if j := strings.Index(l, "("); j > 0 && i > 0 {
-					l = l[:j]
+				if j := strings.LastIndex(l, "("); j > 0 && i > 0 {
+					l = l[:j] // drop the argument list, keep the receiver
 				}
+				l = strings.TrimPrefix(l, "github.com/codenotary/immudb/")
 				keep = append(keep, strings.TrimSpace(l))
 			}
 		}
